@@ -44,8 +44,9 @@ def compiled(name):
 
 
 def KNOWN_D1(sub, case, failure):
-    d = failure.data
-    return bool(d.get('relgap') is not None and d['relgap'] < 1e-4 and d.get('fusion_only') is True)
+    # compiled evaluation violates the clause, op-by-op evaluation of the same library functions satisfies it (relative
+    # eigenvalue gap < 1e-4, or the measure-zero pivot-tie manifestation described in known_findings.json)
+    return bool(failure.data.get('fusion_only') is True)
 
 
 KNOWN_MATCH = {'D1': KNOWN_D1}
@@ -151,7 +152,7 @@ def check(case):
             if asym > tolP:
                 local.append(Failure('stress-symmetry', '%s (%s): |P F^T - F P^T| = %.3e (allowance %.1e) for %s, strain %.1e'
                                      % (case['model'], mode, asym, tolP, f['cls'], e), **data))
-            if local and relgap < 1e-4:
+            if local:
                 # does the op-by-op evaluation of the same library functions satisfy the same clauses?
                 ev = [eager_eval(Hs[i0 + j]) for j in range(3)]
                 ok = {'objectivity': abs(ev[1][0] - ev[0][0]) <= tolW, 'isotropy': abs(ev[2][0] - ev[0][0]) <= tolW,
